@@ -96,12 +96,13 @@ type Sim struct {
 	Tape *Tape
 	Cfg  Config
 
-	tasks   []*Task
-	cur     *Task
-	now     time.Duration
-	timers  []*timer
-	pollers []func() bool
-	seq     uint64
+	tasks      []*Task
+	cur        *Task
+	now        time.Duration
+	timers     []*timer
+	pollers    []func() bool
+	seq        uint64
+	finalizers []finalizerRec
 	// happens-before tracking (hb.go)
 	hbOff       bool
 	hbObj       map[any]VC
